@@ -85,6 +85,8 @@ fn main() {
         "c18" => c18::run(&args),
         "c19" => c19::run(&args),
         "c05" => c05::run(&args),
+        "c05a" => c05::run_alias(&args),
+        "c05m" => c05::run_merge(&args),
         "c06" => c06::run(&args),
         "c06b64" => c06::run_b64(&args),
         "c08" => c08::run(&args),
